@@ -400,10 +400,10 @@ def obligations(tier):
                         smoke=[[0, 3, 1, which]]))
     for kind in ('str', 'int', 'float', 'date'):
         names = method_names(kind)
-        G = 6
+        G = 4
         for g in range(0, len(names), G):
             grp = names[g:g + G]
-            obs.append(dict(name='method[%s:%s..%s]' % (kind, grp[0], grp[-1]), fn='h_method', config={'kind': kind, 'names': grp}, budget=90 if q else 300,
+            obs.append(dict(name='method[%s:%s..%s]' % (kind, grp[0], grp[-1]), fn='h_method', config={'kind': kind, 'names': grp}, budget=150 if q else 400,
                             bounds='methods/properties %s; vectors of 1..3 elements from the %s menu with a solver-chosen None mask' % (','.join(grp), kind),
                             smoke=[[0, 0, 1, 0, 2, False, True, False]]))
     return obs
